@@ -456,6 +456,8 @@ func checkC01(c *Ctx) {
 	// ---------------- R5: a queued request must not change under the proxy's feet
 	c.Rule("R6", "flush gate (shared with C02.R8): a reply/request encoded by a writer loop is flushed before the loop blocks on an empty queue - otherwise a read request has no reply on the wire")
 	checkFlushGate(c, "R6")
+	c.Rule("R7", "no reply is lost at the end of a backend connection (shared with C02.R3-R5): the terminal drain covers every queue, runs after the reader returned and the writer was joined, and an enqueue that can race with it re-tests the quit latch")
+	c.withAlias(map[string]string{"R3": "R7", "R4": "R7", "R5": "R7"}, func() { checkQueues(c, runOwn(c)) })
 	c.Rule("R5", "no alias of the read buffer escapes into a decoded request (shared with C10.R2): a queued request is not rewritten by the next read")
 	checkReadBufferAlias(c, "R5")
 }
